@@ -119,9 +119,10 @@ ALPHA = [0, 1, 15, 16, 63, 64, 127, 128, 0x8f, 0x90, 0xa5, 0xb0, 0xc0, 0xcf, 0xd
 
 
 def pyval_cases(rng):
-    """Non-integer items: the property allows ValueError or TypeError, and nothing else; an accepted input must
-    still be exactly one message (bytes() == input under Python equality)."""
-    items = [1.0, 0.0, 64.0, 144.0, 240.0, 247.0, 0.5, float('nan'), float('inf'), 'a', '1', b'\x90', None, True, False, [1], (1,), {},
+    """Non-integer items (not numbers.Integral; bool is one): the property allows ValueError or TypeError and nothing else - in particular no
+    message may be returned, not even when the item compares equal to a byte (248.0, Fraction(240), 247.0 as a sysex terminator)."""
+    from fractions import Fraction
+    items = [1.0, 0.0, 64.0, 144.0, 240.0, 247.0, 248.0, 246.0, 254.0, 243.0, Fraction(248), Fraction(240), Fraction(3, 1), 0.5, float('nan'), float('inf'), 'a', '1', b'\x90', None, True, False, [1], (1,), {},
              bytearray(b'\x01'), 2 ** 70, -1, 1j]
     statuses = [0x90, 0x80, 0xc0, 0xe0, 0xf0, 0xf1, 0xf2, 0xf3, 0xf6, 0xf8, 0xf4, 0x10]
     cases = []
@@ -149,8 +150,9 @@ def check_pyval(out):
                                  {'component': 'pyval', 'case': repr(case)}))
             continue
         out.count('pyval-accepted')
+        from numbers import Integral
         try:
-            ok = (m.bytes() == list(case)) and valid_msg(m)
+            ok = (m.bytes() == list(case)) and valid_msg(m) and all(isinstance(x, Integral) for x in case)
         except Exception:  # noqa: BLE001
             ok = False
         if not ok:
